@@ -46,7 +46,7 @@ Lim(d) == (hist[1].ctr[d] = 0) => sCtr[d] < MaxCtr
 GStartDirect(d) == StartDirect(d) /\ Log([a |-> "StartDirect", d |-> d])
 GSendPartial(d) == Lim(d) /\ SendPartial(d) /\ Log(SendRec("SendPartial", d))
 GSendFinal(d)   == Lim(d) /\ SendFinal(d)   /\ Log(SendRec("SendFinal", d))
-GPutSecret(d)   == Lim(d) /\ ~baseEnc /\ PutSecret(d) /\ Log(SendRec("PutSecret", d))
+GPutSecret(d)   == Lim(d) /\ PutSecret(d) /\ Log(SendRec("PutSecret", d))
 GStartMsg(d)    == StartMsg(d)    /\ Log([a |-> "StartMsg", d |-> d])
 GWriteBuf(d)    == WriteBuf(d)    /\ Log([a |-> "WriteBuf", d |-> d])
 GWriteFlush(d)  == Lim(d) /\ WriteFlush(d)  /\ Log(SendRec("WriteFlush", d))
@@ -160,13 +160,14 @@ GenInit ==
 
 C02Next ==
   \/ /\ gphase = "send"
-     /\ \/ GStartDirect("ab") \/ GSendPartial("ab") \/ GSendFinal("ab")
+     /\ \/ GStartDirect("ab") \/ GSendPartial("ab") \/ GSendFinal("ab") \/ GPutSecret("ab")
      /\ UNCHANGED <<gphase, script, pc>>
   \/ /\ gphase = "send" /\ cur["ab"] = None /\ Len(sentLog["ab"]) >= 1
      /\ gphase' = "adv" /\ UNCHANGED <<vars, hist, script, pc>>
   \/ /\ gphase = "adv" /\ GAdversary("ab") /\ UNCHANGED <<gphase, script, pc>>
   \/ /\ gphase = "adv" /\ GCloseWire("ab") /\ gphase' = "recv" /\ UNCHANGED <<script, pc>>
-  \/ /\ gphase = "recv" /\ rstate["ab"] = "idle" /\ GCallRecv("ab", "complete")
+  \/ /\ gphase = "recv" /\ rstate["ab"] = "idle"
+     /\ GCallRecv("ab", IF ExpectSecret("ab") THEN "secret" ELSE "complete")
      /\ UNCHANGED <<gphase, script, pc>>
   \/ /\ gphase = "recv" /\ GRecvStep("ab") /\ UNCHANGED <<gphase, script, pc>>
 
@@ -185,7 +186,7 @@ FreeNext ==
   /\ \/ \E d \in Dir :
           \/ GStartDirect(d) \/ GSendPartial(d) \/ GSendFinal(d) \/ GPutSecret(d)
           \/ GStartMsg(d) \/ GWriteBuf(d) \/ GWriteFlush(d) \/ GEndMsg(d)
-          \/ \E api \in Apis : /\ (api = "secret") = (~baseEnc /\ wire[d] # <<>> /\ Head(wire[d]).prot)
+          \/ \E api \in Apis : /\ (api = "secret") = ExpectSecret(d)
                                /\ (wire[d] # <<>> \/ closed[d])
                                /\ GCallRecv(d, api)
           \/ (rstate[d] = "busy" /\ wire[d] # <<>> /\ GRecvStep(d))
